@@ -319,6 +319,20 @@ func (ei *EffectsInfo) analyse(f *ssa.Function) bool {
 				write(ins, get(c.Args[0]), name+" sorts "+get(c.Args[0]).Describe(f)+" in place")
 				return 0
 			}
+			switch name {
+			case "slices.Sort", "slices.SortFunc", "slices.SortStableFunc", "slices.Reverse":
+				write(ins, get(c.Args[0]), name+" reorders "+get(c.Args[0]).Describe(f)+" in place")
+				return 0
+			case "slices.Delete", "slices.DeleteFunc", "slices.Insert", "slices.Replace", "slices.Compact", "slices.CompactFunc":
+				// shift the elements of their first argument in place and return a slice of the same array
+				write(ins, get(c.Args[0]), name+" moves elements of "+get(c.Args[0]).Describe(f)+" in place")
+				return get(c.Args[0])
+			case "slices.Grow", "slices.Clip":
+				return get(c.Args[0])
+			case "maps.Copy", "maps.DeleteFunc":
+				write(ins, get(c.Args[0]), name+" writes the map "+get(c.Args[0]).Describe(f))
+				return 0
+			}
 			e.Externals[name] = true
 			if res != nil && pointerLike(res.Type()) {
 				// e.g. reflect, fmt, strings: results do not alias our collections
